@@ -25,7 +25,7 @@ Open Scope Z_scope.
 Theorem C01_graph_roundtrip : forall nm F te tm ty_of v t st st',
   enm st = nm -> sgv nm F te tm ty_of t v -> cls_ok F (ecls st) -> write_data v st = Ok st' ->
   cls_ok F (ecls st') /\ enm st' = enm st /\ grows st st' /\
-  exists bs d cells, ebytes st' = ebytes st ++ bs /\ (1 <= length bs)%nat /\ dg ty_of (erefs st) v d cells (erefs st') /\
+  exists bs d cells, ebytes st' = ebytes st ++ bs /\ (1 <= length bs)%nat /\ dg te ty_of (erefs st) v d cells (erefs st') /\
     (small st' -> forall dst rest, Inv ty_of st dst ->
        exists dst', Inv ty_of st' dst' /\ dheap dst' = dheap dst ++ cells /\
        forall f, (need_d v <= f)%nat ->
@@ -42,10 +42,10 @@ Print Assumptions C01_graph_roundtrip.
 (* a whole message: encode from fresh tables, decode from fresh tables *)
 Theorem C01_graph_message_roundtrip : forall nm F te tm ty_of a ty fs st',
   sgv nm F te tm ty_of (TPtr (TStruct ty)) (VStruct a ty fs) -> write_data (VStruct a ty fs) (estate0 nm) = Ok st' -> small st' ->
-  exists ds cells, dgs ty_of [(a, RStruct)] (map snd fs) ds cells (erefs st') /\
+  exists gfs ds cells, te_lookup te ty = Some gfs /\ length ds = length fs /\ dgs te ty_of [(a, RStruct)] (map snd fs) ds cells (erefs st') /\
     forall f, (need_d (VStruct a ty fs) <= f)%nat ->
       exists dst', R_rd (readers_at te tm f) dstate0 (ebytes st') = Ok (DPtr 0 ty, [], dst') /\
-                   dheap dst' = RObj ty (Some (combine (map fst fs) ds)) :: cells.
+                   dheap dst' = RObj ty (Some (assoc_all (zeros_of te gfs) (bind_known gfs (map fst fs) ds))) :: cells.
 Proof. exact graph_message_roundtrip. Qed.
 Print Assumptions C01_graph_message_roundtrip.
 
@@ -53,16 +53,21 @@ Print Assumptions C01_graph_message_roundtrip.
 Theorem C01_decode_encode : forall nm F te tm ty_of a ty fs st',
   sgv nm F te tm ty_of (TPtr (TStruct ty)) (VStruct a ty fs) -> write_data (VStruct a ty fs) (estate0 nm) = Ok st' -> small st' ->
   (need_d (VStruct a ty fs) <= decode_fuel (ebytes st'))%nat ->
-  exists ds cells dst', dgs ty_of [(a, RStruct)] (map snd fs) ds cells (erefs st') /\
+  exists gfs ds cells dst', te_lookup te ty = Some gfs /\ length ds = length fs /\ dgs te ty_of [(a, RStruct)] (map snd fs) ds cells (erefs st') /\
     decode te tm (ebytes st') = Ok (DPtr 0 ty, [], dst') /\
-    dheap dst' = RObj ty (Some (combine (map fst fs) ds)) :: cells.
+    dheap dst' = RObj ty (Some (assoc_all (zeros_of te gfs) (bind_known gfs (map fst fs) ds))) :: cells.
 Proof. exact graph_decode_encode. Qed.
 Print Assumptions C01_decode_encode.
+(* when the value lists exactly the fields of its Go type - what the encoder writes for a Go value -
+   every field holds its own decoded value *)
+Theorem C01_exact_fields : forall te gfs ds, fields_findable gfs -> length ds = length gfs ->
+  assoc_all (zeros_of te gfs) (bind_known gfs (map fst gfs) ds) = combine (map fst gfs) ds.
+Proof. exact (exact_fields (fun _ => [])). Qed.
 
 (* C04: the pointer decoded at a position holding (a pointer to) the object at address a is the
    ordinal of a - also in the table at the end of the message - and ordinals identify addresses:
    two decoded pointers are equal exactly when the original pointers were *)
-Theorem C04_decoded_pointer_is_ordinal : forall ty_of refs v d cells refs' a, dg ty_of refs v d cells refs' -> a <> 0 ->
+Theorem C04_decoded_pointer_is_ordinal : forall te ty_of refs v d cells refs' a, dg te ty_of refs v d cells refs' -> a <> 0 ->
   (v = VSeen RStruct a \/ exists ty fs, v = VStruct a ty fs) ->
   exists i ty, d = DPtr (Z.to_nat i) ty /\ forall more, ref_find (refs' ++ more) a RStruct 0 = Some i.
 Proof. exact decoded_pointer_is_ordinal. Qed.
@@ -87,13 +92,16 @@ Proof.
   - repeat constructor; cbn; intuition discriminate.
   - intros n t [H|[H|[H|[]]]]; inversion H; subst; reflexivity.
 Qed.
+Ltac known_fields := repeat (apply Forall_cons; [cbn [fst snd]; intros gn gt X; vm_compute in X; inversion X; subst; clear X|]); [..|apply Forall_nil].
+Ltac no_unknown_fields := repeat (apply Forall_cons; [cbn [fst snd]; intros X; vm_compute in X; discriminate|]); apply Forall_nil.
 Lemma xsgv2 : sgv xnm xF xte xtm xty (TPtr (TStruct xN)) xn2.
 Proof.
-  eapply (sg_struct xnm xF xte xtm xty 2 xN _ xN xgfs); try reflexivity; try lia; try exact xfindable.
+  eapply (sg_struct xnm xF xte xtm xty 2 xN _ xN xgfs); try reflexivity; try lia.
   - repeat constructor; unfold valid_rune; lia.
   - repeat constructor; unfold valid_rune; lia.
   - cbn; lia.
-  - repeat constructor; try (unfold in_kind; cbn; lia). exact (sg_seen xnm xF xte xtm xty 1).
+  - known_fields; [constructor; unfold in_kind; cbn; lia|constructor; constructor|exact (sg_seen xnm xF xte xtm xty 1)].
+  - no_unknown_fields.
 Qed.
 Example C01_graph_nonvacuous :
   sgv xnm xF xte xtm xty (TPtr (TStruct xN)) xn1 /\
@@ -103,12 +111,12 @@ Example C01_graph_nonvacuous :
                     RObj xN (Some [([86], DInt KInt32 8); ([83], DStr []); ([78; 101; 120; 116], DPtr 0 xN)])].
 Proof.
   split.
-  - eapply (sg_struct xnm xF xte xtm xty 1 xN _ xN xgfs); try reflexivity; try lia; try exact xfindable.
+  - eapply (sg_struct xnm xF xte xtm xty 1 xN _ xN xgfs); try reflexivity; try lia.
     + repeat constructor; unfold valid_rune; lia.
     + repeat constructor; unfold valid_rune; lia.
     + cbn; lia.
-    + constructor; [constructor; unfold in_kind; cbn; lia|]. constructor; [constructor; repeat constructor; unfold valid_rune; lia|].
-      constructor; [exact xsgv2|constructor].
+    + known_fields; [constructor; unfold in_kind; cbn; lia|constructor; repeat constructor; unfold valid_rune; lia|exact xsgv2].
+    + no_unknown_fields.
   - eexists. split; [vm_compute; reflexivity|]. split; [split; vm_compute; discriminate|].
     eexists. split; vm_compute; reflexivity.
 Qed.
@@ -132,15 +140,15 @@ Example C01_graph_list_nonvacuous :
 Proof.
   split.
   - eapply (sg_struct ynm yF yte ytm (fun _ => yL) 1 yL _ yL ygfs); try reflexivity; try lia.
-    + split; [repeat constructor; cbn; intuition discriminate|]. intros n t [H|[]]; inversion H; subst; reflexivity.
     + repeat constructor; unfold valid_rune; lia.
     + repeat constructor; unfold valid_rune; lia.
     + cbn; lia.
-    + constructor; [|constructor]. cbn [snd].
+    + known_fields.
       eapply (sg_slice ynm yF yte ytm (fun _ => yL) yty _ (TInt KInt32) yltn); try reflexivity; try discriminate; try (cbn; lia).
       * repeat constructor; unfold valid_rune; lia.
       * repeat constructor; unfold in_kind; cbn; lia.
       * repeat constructor.
+    + no_unknown_fields.
   - eexists. split; [vm_compute; reflexivity|]. split; [split; vm_compute; discriminate|].
     eexists. split; vm_compute; reflexivity.
 Qed.
@@ -161,15 +169,15 @@ Example C01_graph_map_nonvacuous :
 Proof.
   split.
   - eapply (sg_struct znm zF zte ztm (fun _ => zM) 1 zM _ zM zgfs); try reflexivity; try lia.
-    + split; [repeat constructor; cbn; intuition discriminate|]. intros n t [H|[]]; inversion H; subst; reflexivity.
     + repeat constructor; unfold valid_rune; lia.
     + repeat constructor; unfold valid_rune; lia.
     + cbn; lia.
-    + constructor; [|constructor]. cbn [snd].
+    + known_fields.
       eapply (sg_map znm zF zte ztm (fun _ => zM) [] _ TStr (TInt KInt32)); try discriminate.
       * repeat constructor.
       * repeat constructor; cbn; intuition discriminate.
       * repeat constructor; try (unfold valid_rune; lia); try (unfold in_kind; cbn; lia).
+    + no_unknown_fields.
   - eexists. split; [vm_compute; reflexivity|]. split; [split; vm_compute; discriminate|].
     eexists. split; vm_compute; reflexivity.
 Qed.
